@@ -2,7 +2,7 @@
    (cores and request rotated to the start mode) the first core has exactly the requested bonds (rank[mode], rank[mode+1]) and every
    later bond is min(n_row, n_col, requested) <= requested. *)
 From Coq Require Import List Arith Lia Bool.
-From TLV Require Import Base.Shape Base.PyList Base.Tensor Base.BigSum Base.Ops Model.Base Model.SvdDecomp Proofs.SvdDecompRanks Proofs.SvdDecompRing.
+From TLV Require Import Base.Shape Base.PyList Base.Tensor Base.BigSum Base.Ops Model.Base Model.SvdDecomp Proofs.SvdDecompRanks Proofs.SvdDecompRing Proofs.SvdDecompValidate.
 Import ListNotations.
 
 Section RingRanks.
@@ -67,3 +67,93 @@ Proof.
     exists G, cs. split; [exact Efs|]. split; [exact HG|]. split; [exact Hr | exact Hle].
 Qed.
 End RingRanks.
+
+(* ------------------------------------------------------------------ the closed form of the bonds the ring loop realises *)
+(* min(previous bond * size, remaining size * r0, request): the trailing ring bond r0 counts on the column side *)
+Fixpoint realised_body_r0 (r0 : nat) (sizes : list nat) (rk : nat) (ranks : list nat) : list nat :=
+  match sizes with
+  | [] => []
+  | s :: rest =>
+    match rest with
+    | [] => []
+    | _ :: _ => let r := Nat.min (rk * s) (Nat.min (prod rest * r0) (hd 1 ranks)) in r :: realised_body_r0 r0 rest r (tl ranks)
+    end
+  end.
+
+Section RingRealised.
+Context {F : Type} (Op : fops F).
+Variable svd : nat -> tensor F -> @svdans F.
+
+Theorem chain_loop_realised_gen : forall sizes k ranks rk r0 W cores,
+  chain_loop Op svd k sizes ranks rk r0 W = Ok cores -> right_bonds cores = realised_body_r0 r0 sizes rk ranks.
+Proof.
+  induction sizes as [|n rest IH]; intros k ranks rk r0 W cores H; [discriminate|].
+  destruct rest as [|n2 rest2].
+  - simpl in H. injection H as <-. reflexivity.
+  - set (rest := n2 :: rest2) in *. cbn [chain_loop] in H. fold rest in H. cbv zeta in H.
+    destruct (fact_shapes_ok _ _ _ _); [|discriminate].
+    destruct (svd_interface Op _ _) as [[U Sv] V].
+    destruct (chain_loop Op svd (S k) rest (tl ranks) _ r0 _) as [cs|] eqn:E; [|discriminate].
+    cbn [rbind] in H. injection H as <-.
+    assert (Hne : cs <> []).
+    { intros ->. unfold rest in E. cbn [chain_loop] in E. destruct rest2; [discriminate|].
+      cbv zeta in E. destruct (fact_shapes_ok _ _ _ _); [|discriminate].
+      destruct (svd_interface Op _ _) as [[? ?] ?]. destruct (chain_loop Op svd _ _ _ _ _ _); discriminate. }
+    pose proof (IH _ _ _ _ _ _ E) as Hcs.
+    destruct cs as [|G2 cs2]; [contradiction|].
+    unfold rest at 1. cbn [realised_body_r0]. fold rest. cbn [right_bonds shape reshape nth] in *.
+    f_equal. exact Hcs.
+Qed.
+
+(* tensor_ring, rotated frame: the bonds after the first core are exactly the closed form (whatever the oracle answers) *)
+Theorem tr_core_realised Xp rk fs :
+  tr_core Op svd Xp rk = Ok fs ->
+  right_bonds (tl fs) = realised_body_r0 (nth 0 rk 0) (tl (shape Xp)) (nth 1 rk 0) (skipn 2 rk).
+Proof.
+  unfold tr_core. cbv zeta. intros H.
+  destruct (_ <? _); [discriminate|]. destruct (fact_shapes_ok _ _ _ _); [|discriminate].
+  destruct (svd_interface Op _ _) as [[U Sv] V].
+  destruct (chain_loop Op svd 1 _ _ _ _ _) as [cs|] eqn:Ec; [|discriminate].
+  cbn [rbind] in H. injection H as <-. cbn [tl]. exact (chain_loop_realised_gen _ _ _ _ _ _ _ Ec).
+Qed.
+End RingRealised.
+
+Section RingRealisedTop.
+Context {F : Type} (Op : fops F).
+Variable svd : nat -> tensor F -> @svdans F.
+
+(* every start mode: with cores and request rotated to the start mode, the bonds tensor_ring returns after the first core are
+   exactly min(previous bond * size, remaining size * rank[mode], request), whatever the oracle answers *)
+Theorem tensor_ring_realised X rank mode cores :
+  tensor_ring Op svd X rank mode = Ok cores ->
+  match validate_tr_rank (ndim X) rank with
+  | Ok rk0 =>
+    let n := ndim X in
+    let rk := if Nat.eqb mode 0 then rk0 else tr_rotate_rank n mode rk0 in
+    let shp := if Nat.eqb mode 0 then shape X else permute 0 (rotate mode (seq 0 n)) (shape X) in
+    let fs := if Nat.eqb mode 0 then cores else rotate mode cores in
+    right_bonds (tl fs) = realised_body_r0 (nth 0 rk 0) (tl shp) (nth 1 rk 0) (skipn 2 rk)
+  | Err => False
+  end.
+Proof.
+  unfold tensor_ring. cbv zeta. destruct (validate_tr_rank (ndim X) rank) as [rk0|]; [|discriminate]. cbn [rbind].
+  destruct (mode <? ndim X) eqn:Emn; [|discriminate]. cbn [negb]. apply Nat.ltb_lt in Emn.
+  destruct (Nat.eqb mode 0) eqn:E0.
+  - intros H. destruct (tr_core Op svd X rk0) as [fs|] eqn:E; [|discriminate]. cbn [rbind] in H. injection H as <-.
+    exact (tr_core_realised Op svd X rk0 fs E).
+  - intros H. set (Xp := transpose (f0 Op) (rotate mode (seq 0 (ndim X))) X) in *.
+    destruct (tr_core Op svd Xp (tr_rotate_rank (ndim X) mode rk0)) as [fs|] eqn:E; [|discriminate].
+    cbn [rbind] in H. injection H as <-.
+    assert (Hlfs : length fs = ndim X).
+    { destruct (tr_core_bonds Op svd Xp _ fs E) as [_ Hl]. rewrite Hl.
+      unfold Xp, transpose. cbn [shape tabulate]. unfold ndim.
+      assert (Hp : length (permute 0 (rotate mode (seq 0 (length (shape X)))) (shape X)) = length (shape X)).
+      { unfold permute. rewrite map_length. unfold rotate. rewrite app_length, skipn_length, firstn_length, seq_length. unfold ndim in Emn. lia. }
+      destruct (permute 0 (rotate mode (seq 0 (length (shape X)))) (shape X)) as [|d rest] eqn:Ep; cbn [length tl] in *; unfold ndim in Emn; lia. }
+    rewrite (rotate_back fs (ndim X) mode Hlfs ltac:(lia)).
+    exact (tr_core_realised Op svd Xp _ fs E).
+Qed.
+End RingRealisedTop.
+
+Example realised_body_r0_instance : realised_body_r0 2 [3; 2; 2] 2 [6; 1; 2] = [6; 1].
+Proof. reflexivity. Qed.
